@@ -98,6 +98,8 @@ TypeInput(x) ==
   /\ Len(x.qtab) >= 1 /\ (x.shape = "V" => Len(x.qtab) = 1)
   /\ Len(x.bmplan) = Len(x.qtab) /\ \A j \in 1..Len(x.qtab) : x.bmplan[j] \in Plans
   /\ x.nvd >= 1 /\ x.wf \in BOOLEAN /\ x.elcurve \in BOOLEAN
+  (* all energies carry the constant offset x.shift: E0 = (E0 without offset) + shift *)
+  /\ Len(x.e0base) = NT(x) /\ \A k \in 1..NT(x) : x.ptab[k].E0 = RAdd(x.e0base[k], x.shift)
   /\ \A k \in 1..NT(x) : IsRat(x.ptab[k].V0) /\ IsRat(x.ptab[k].E0) /\ IsRat(x.ptab[k].B0)
   (* heat capacities are either well above the 1e-10 cutoff of the Gruneisen routine or <= 0 *)
   /\ \A k \in 1..NT(x) : LET c == CvAt(x, k, x.ptab[k].V0)
@@ -362,6 +364,16 @@ InRange(x, o) == \A k \in 1..Len(o.rows) : o.rows[k].ph \in 1..NT(x)
 ReqRecoverVolume(x, o) == InRange(x, o) /\ Len(o.vol) = Len(o.rows) /\ \A k \in 1..Len(o.vol) : o.vol[k] = PT(x, o, k).V0
 ReqRecoverGibbs(x, o) == InRange(x, o) /\ Len(o.gibbs) = Len(o.rows) /\ \A k \in 1..Len(o.gibbs) : o.gibbs[k] = PT(x, o, k).E0
 ReqRecoverBulk(x, o) == InRange(x, o) /\ Len(o.bulk) = Len(o.rows) /\ \A k \in 1..Len(o.bulk) : o.bulk[k] = PT(x, o, k).B0
+(* the zero of energy is arbitrary: adding a constant C to all (electronic) energies shifts  *)
+(* the Gibbs energy of every temperature by C and leaves V0(T), B0(T) untouched - for every  *)
+(* energy scale and however little consecutive temperatures differ                            *)
+ReqShiftInvariance(x, o) ==
+  /\ InRange(x, o) /\ Len(o.gibbs) = Len(o.rows) /\ Len(o.vol) = Len(o.rows) /\ Len(o.bulk) = Len(o.rows)
+  /\ \A k \in 1..Len(o.rows) :
+        /\ RSub(o.gibbs[k], x.shift) = x.e0base[o.rows[k].ph]
+        /\ o.vol[k] = PT(x, o, k).V0 /\ o.bulk[k] = PT(x, o, k).B0
+  /\ x.elcurve => \A j \in 1..Len(o.bmpar) : j <= Len(x.qtab) =>
+        o.bmpar[j].Bp = x.qtab[j].Bp /\ o.bmpar[j].V0 = x.qtab[j].V0 /\ o.bmpar[j].B0 = x.qtab[j].B0
 (* electronic-only bulk modulus object: one curve (V) / one per row (TV) *)
 ReqBulkModulusObject(x, o) ==
   x.elcurve =>
@@ -435,6 +447,7 @@ InvPerTemperatureElectronic == Done /\ InStatement(inp) => ReqPerTemperatureElec
 InvPhononUnit == Done /\ InStatement(inp) => ReqPhononUnit(inp, Out)
 InvPressureSign == Done /\ InStatement(inp) => ReqPressureSign(inp, Out) /\ ReqNoSpuriousPV(inp, Out)
 InvRecovery == Done /\ InStatement(inp) => ReqRecoverVolume(inp, Out) /\ ReqRecoverGibbs(inp, Out) /\ ReqRecoverBulk(inp, Out)
+InvShiftInvariance == Done /\ InStatement(inp) => ReqShiftInvariance(inp, Out)
 InvBulkModulusObject == Done /\ InStatement(inp) => ReqBulkModulusObject(inp, Out)
 InvThermalExpansion == Done /\ InStatement(inp) => ReqThermalExpansion(inp, Out)
 InvHeatCapacity == Done /\ InStatement(inp) => ReqHeatCapacity(inp, Out)
